@@ -18,6 +18,9 @@ CLAIMED = {
  "C08": ("lock-state dataflow for the dirty flag; must-pass-through on go/cfg with helper summaries",
          "the pre-write protocol: every store to the dirty flag happens under the exclusive lock (so flush and clear are one critical section), every socket write of buffered replies is separated from the handled command by the dirty test or a flush under the lock, every append sets the flag, flushAOF writes the whole buffer before truncating it and does not drop the error",
          "kill instants (write(2) durability is trusted) — interleavings are covered by the lock argument, not enumerated"),
+ "C18": ("lock-table extraction; effect analysis of the read-only script class; enumeration of the Lua global environment from source (tile38 literals and pinned gopher-lua/gopher-json tables); set/clear pairing of per-call globals on go/cfg",
+         "EVAL/EVALSHA hold the exclusive lock for the whole script and EVALRO the shared lock, with no lock operation inside; the read-only class offers no handler with a write effect; script writes pass writeAOF in the same critical section; the script environment equals the reviewed allow-list and its Go functions reach no os/net/syscall function; new globals raise; per-call globals are cleared on every path before a state returns to the pool; the script class is bound to EVAL_CMD which only cmdEvalUnified sets",
+         "the Go-level behaviour of the allow-listed gopher-lua builtins (trusted); interleavings are covered by the lock argument, not enumerated"),
 }
 
 NOT_APPLICABLE = {
